@@ -287,7 +287,7 @@ func ReturnsNonNilError(r *ssa.Return) bool {
 	if len(r.Results) == 0 {
 		return false
 	}
-	v := r.Results[len(r.Results)-1]
+	v := RetVal(r, len(r.Results)-1)
 	if !IsErrorType(v.Type()) {
 		return false
 	}
@@ -313,6 +313,21 @@ func nonNilErr(v ssa.Value, at ssa.Instruction, seen map[ssa.Value]bool) bool {
 		if x.Op == token.MUL {
 			if _, ok := x.X.(*ssa.Global); ok {
 				return true // package-level sentinel (who-may-write is checked separately where it matters)
+			}
+			// load of a local error variable: the last store in the same block decides
+			if a := CellOf(x.X); a != nil {
+				var last ssa.Value
+				for _, in := range x.Block().Instrs {
+					if in == ssa.Instruction(x) {
+						break
+					}
+					if st, ok := in.(*ssa.Store); ok && CellOf(st.Addr) == a {
+						last = st.Val
+					}
+				}
+				if last != nil && nonNilErr(last, at, seen) {
+					return true
+				}
 			}
 		}
 	case *ssa.Phi:
